@@ -290,6 +290,11 @@ def main(argv=None):
                     pool._put(w)
             out('setup ok', snap)
             return 0
+        if cmd == 'manifest':
+            from . import manifest
+            m = manifest.write()
+            out('MANIFEST.json written: %d checks, %d not_applicable' % (len(m['checks']), len(m['not_applicable'])))
+            return 0
         if cmd == 'selftest-determinism':
             from . import selftest
             return selftest.determinism(argv[1:])
